@@ -1,6 +1,23 @@
 (* Guard of the C04 theorem: the regions of (expression, document) on which the library is
-   known to deviate from the specification (finding bits) or on which the comparison is not
-   meaningful (undecided bits).  c04_reasons = 0 is the hypothesis of Properties/C04.v. *)
+   known to deviate from the specification (finding bits).  c04_reasons = 0 is the hypothesis
+   of Properties/C04.v.  The guard walks the expression like the evaluator does (operands
+   under the same variables, bodies of $let/$map/$filter under the extended ones) and tests,
+   at every operator node, conditions on the values the MODEL gives to the operands:
+     1  = F-EXPR-PYEQ      $eq/$ne/$in/$setEquals/$setUnion compare with Python ==: an operand
+                           holds a bool or a sub-document (true == 1, key order ignored)
+     2  = F-NULL-OPERAND   $arrayElemAt, $first/$last, $substr, $strcasecmp, the date parts,
+                           $filter (input), $slice, $in (array), and $sum/$avg/$min/$max with a
+                           single operand: a null or missing operand raises or makes the whole
+                           expression missing where MongoDB answers null (or "" / 0)
+     4  = F-SCALAR-FOLD    $sum/$avg/$min/$max with a single operand that is not an array
+     8  = F-UNARY-LIST     the one-element array form {$abs: [x]} of a unary operator is read
+                           as an array literal
+     16 = F-BINDER-MISSING a $let variable or a $map body that evaluates to missing makes the
+                           whole expression missing
+     32 = F-SETEQ-UNHASHABLE $setEquals over arrays holding arrays or sub-documents raises
+     64 = F-FIRST-EMPTY    $first/$last of an empty array answer null instead of missing
+     128 = F-SLICE-NEG     $slice [array, position, n] with a negative position beyond the start
+                           of the array: the window is not clamped to the start *)
 From Coq Require Import ZArith List String Bool Ascii.
 From Verif Require Import Value PyEq BsonOrder Path Update Expr ExprSpec.
 Import ListNotations.
@@ -8,4 +25,128 @@ Open Scope Z_scope.
 Open Scope string_scope.
 Open Scope list_scope.
 
-Definition c04_reasons (e doc : value) : Z := 0.
+Definition nullish_e (r : eres) : bool :=
+  match r with EMiss | EV VNull => true | _ => false end.
+
+Definition in_list (k : string) (l : list string) : bool := existsb (String.eqb k) l.
+
+Definition zor_list (l : list Z) : Z := fold_left Z.lor l 0.
+
+Definition plain_res (r : eres) : bool := match r with EV v => plain v | _ => true end.
+
+Definition date_part_op (k : string) : bool :=
+  in_list k ["$hour"; "$minute"; "$second"; "$millisecond"; "$dayOfWeek"].
+
+(* conditions at one operator node, from the operand results *)
+Definition node_reasons (k : string) (arg : value) (vals : list eres) : Z :=
+  let any_null := existsb nullish_e vals in
+  let is_list_arg := match arg with VArr _ => true | _ => false end in
+  let single_list := match arg with VArr [_] => true | _ => false end in
+  let fold_op := in_list k ["$sum"; "$avg"; "$min"; "$max"] in
+  Z.lor (if in_list k ["$eq"; "$ne"; "$in"; "$setEquals"; "$setUnion"]
+            && negb (forallb plain_res vals) then 1 else 0)
+  (Z.lor (if (in_list k ["$arrayElemAt"; "$first"; "$last"; "$substr"; "$strcasecmp"; "$slice"; "$in"]
+              || date_part_op k || (fold_op && negb is_list_arg)) && any_null then 2 else 0)
+  (Z.lor (if fold_op && negb is_list_arg
+              && negb (forallb (fun r => match r with EV (VArr _) => true | _ => nullish_e r end) vals)
+          then 4 else 0)
+  (Z.lor (if single_list && (in_list k ["$abs"; "$ceil"; "$floor"; "$trunc"; "$isArray"; "$isNumber"; "$first"; "$last"; "$toLower"; "$toUpper"]
+                             || date_part_op k) then 8 else 0)
+  (Z.lor (if (k =? "$setEquals")
+              && existsb (fun r => match r with
+                                   | EV (VArr xs) => negb (forallb hashable_scalar xs)
+                                   | _ => false end) vals then 32 else 0)
+  (Z.lor (if in_list k ["$first"; "$last"] && existsb (fun r => match r with EV (VArr []) => true | _ => false end) vals
+          then 64 else 0)
+         (if k =? "$slice" then
+            match arg, vals with
+            | VArr [_; VInt p; _], EV (VArr xs) :: _ =>
+                if (p <?? 0) && (Z.of_nat (List.length xs) <?? - p) then 128 else 0
+            | _, _ => 0
+            end
+          else 0)))))).
+
+Fixpoint reasons (vars : list (string * value)) (doc : value) (e : value) {struct e} : Z :=
+  match e with
+  | VArr xs => zor_list (map (reasons vars doc) xs)
+  | VDoc fs =>
+      match fs with
+      | [(k, arg)] =>
+          if negb (starts_dollar k) then reasons vars doc arg
+          else if k =? "$literal" then 0
+          else if k =? "$let" then
+            match arg with
+            | VDoc lf =>
+                let var_tbl :=
+                  (fix find_vars (l : list (string * value)) : list (string * (eres * Z)) :=
+                     match l with
+                     | [] => []
+                     | (bk, bv) :: l' =>
+                         if bk =? "vars" then
+                           match bv with
+                           | VDoc vfs => map (fun kv : string * value =>
+                                                match kv with (ck, cv) => (ck, (eval vars doc true cv, reasons vars doc cv)) end) vfs
+                           | _ => []
+                           end
+                         else find_vars l'
+                     end) lf in
+                let bound := flat_map (fun kr => match fst (snd kr) with EV v => [(fst kr, v)] | _ => [] end) var_tbl in
+                Z.lor (zor_list (map (fun kr => snd (snd kr)) var_tbl))
+               (Z.lor (if existsb (fun kr => match fst (snd kr) with EMiss => true | _ => false end) var_tbl then 16 else 0)
+                      ((fix find_in (l : list (string * value)) : Z :=
+                          match l with
+                          | [] => 0
+                          | (bk, bv) :: l' => if bk =? "in" then reasons (vars ++ bound) doc bv else find_in l'
+                          end) lf))
+            | _ => 0
+            end
+          else if (k =? "$map") || (k =? "$filter") then
+            match arg with
+            | VDoc mf =>
+                let body_key := if k =? "$map" then "in" else "cond" in
+                let name := match assoc "as" mf with Some (VStr n) => n | _ => "this" end in
+                let inp :=
+                  (fix find_i (l : list (string * value)) : eres * Z :=
+                     match l with
+                     | [] => (EMiss, 0)
+                     | (bk, bv) :: l' => if bk =? "input" then (eval vars doc true bv, reasons vars doc bv) else find_i l'
+                     end) mf in
+                let items := match fst inp with EV (VArr xs) => xs | _ => [] end in
+                Z.lor (snd inp)
+               (Z.lor (if (k =? "$filter") && nullish_e (fst inp) then 2 else 0)
+                      ((fix find_b (l : list (string * value)) : Z :=
+                          match l with
+                          | [] => 0
+                          | (bk, bv) :: l' =>
+                              if bk =? body_key then
+                                zor_list (map (fun item =>
+                                                 Z.lor (reasons (vars ++ [(name, item)]) doc bv)
+                                                       (if (k =? "$map")
+                                                           && match eval (vars ++ [(name, item)]) doc true bv with
+                                                              | EMiss => true | _ => false end
+                                                        then 16 else 0)) items)
+                              else find_b l'
+                          end) mf))
+            | _ => 0
+            end
+          else
+            match arg with
+            | VArr xs =>
+                Z.lor (zor_list (map (reasons vars doc) xs))
+                      (node_reasons k arg (map (eval vars doc true) xs))
+            | VDoc afs =>
+                if existsb (fun kv => starts_dollar (fst kv)) afs
+                then (* one operand, itself an operator expression *)
+                  Z.lor (reasons vars doc arg) (node_reasons k arg [eval vars doc true arg])
+                else
+                (* named operands ($cond, $switch): every value is walked under the same variables *)
+                zor_list (map (fun kv : string * value =>
+                                 match kv with (_, cv) => reasons vars doc cv end) afs)
+            | _ => Z.lor (reasons vars doc arg) (node_reasons k arg [eval vars doc true arg])
+            end
+      | _ => zor_list (map (fun kv : string * value => match kv with (_, cv) => reasons vars doc cv end) fs)
+      end
+  | _ => 0
+  end.
+
+Definition c04_reasons (e doc : value) : Z := reasons [] doc e.
